@@ -102,6 +102,7 @@ def families(tier, seed):
         yield Instance(f"endstart-dir|{we}", mol(sto("[]", ["[<]CC[>]"], ["[>]N", e2d, "[<]F"], "[]", g0(30.0))), family="end-initiated")
     # end-group initiated, open right end handed to a suffix
     yield Instance("endstart-suffix", mol(sto("[]", ["[<]CC[>]", "[<]CO[>]"], ["[>]N"], "[<]", g0(40.0)), tok("F")), family="end-initiated")
+    yield Instance("endstart-suffix-two-ends", mol(sto("[]", ["[<]CC[>]"], ["[>]N", "[<|0|]F"], "[<]", g0(40.0)), tok("O")), family="end-initiated")
     # 5. block copolymer: two objects with and without connector; three objects
     a, b = units[0], units[1]
     yield Instance("block-noconn", mol(tok("N"), sto("[>]", [a], [], "[<]", g0(40.0)), sto("[>]", [b], [], "[<]", g0(40.0)), tok("F")), family="block")
@@ -156,6 +157,9 @@ def families(tier, seed):
     )
     # end-group start with nearly equal weights
     yield Instance("endstart-tiny", mol(sto("[]", ["[$]CC[$]"], ["[$|0|]N", "[$|1e-9|]O"], "[]", g0(30.0))), family="end-initiated")
+    # lists whose entries are all equal (all ones, all twos): still a list (total weight = sum), not "no weight"
+    yield Instance("trans-all-ones", mol(sto("[]", ["[$|1 1 1|]CC[$]"], ["[$][H]"], "[]", g0(30.0))), family="transitions")
+    yield Instance("trans-all-twos", mol(tok("N"), sto("[$]", ["[$]CC[$|2 2 2 2|]", "[$|0|]CO[$|0|]"], [], "[$]", g0(50.0)), tok("F")), family="transitions")
     # transition lists that give weight to an incompatible descriptor: the pick must be refused, never bonded
     yield Instance("trans-incompatible", mol(sto("[]", ["[<]CC[>|3 1 0 0|]"], ["[>]F", "[<]Cl"], "[]", g0(40.0))), family="transitions-illposed")
     yield Instance("trans-incompatible-id", mol(sto("[]", ["[$1]CC[$1|2 0 1 0 0 0|]", "[$2]CO[$2]"], ["[$1]F", "[$2]Cl"], "[]", g0(40.0))), family="transitions-illposed")
